@@ -35,8 +35,59 @@ def goals_of(o, k):
     return out
 
 
+C_LIGHT = 299792458.0
+STAGE = "kinematics"
+
+
+def expected(o):
+    """the five quantities recomputed in binary64 from the index samples the code itself read (the property's formulas, not the generated ones)"""
+    lam, n0, h = f64_of_hex(o["lambda"]), f64_of_hex(o["n0"]), f64_of_hex(o["h"])
+    D = 0.5 * (f64_of_hex(o["n_plus"]) - f64_of_hex(o["n_minus"])) / h
+    n_eff = n0 + (lam / f64_of_hex(o["period"]) if o["period"] is not None else 0.0)
+    vp = C_LIGHT / n_eff
+    vg = vp * (1.0 + (lam / n_eff) * D)
+    d = [f64_of_hex(x) for x in o["dir"]]
+    return {"n_eff": n_eff, "vp": vp, "vg": vg, "ng": C_LIGHT / vg,
+            "transit": abs(0.5 * f64_of_hex(o["L"]) / d[2]) * (d[0] * d[0] + d[1] * d[1] + d[2] * d[2]) ** 0.5 / vg}
+
+
+def oracle(ctx, obs):
+    """S5 on the implementation's outputs: finite, n_eff / v_p / v_g / n_g / transit time equal to the property's formulas on the code's
+    own index samples (1e-9 relative), v_g n_g = c, refractive_index = index_along at the own wavelength.  Returns the usable observations."""
+    good = []
+    for o in obs:
+        if o.get("kind") != "kin":
+            continue
+        regen_ = {"harness_args": o.get("_args"), "match": {"case": o.get("case")}}
+        where = f"{o['crystal']} {'e' if o['pol'] == 'e' else 'o'}-ray at {f64_of_hex(o['lambda']) * 1e9:.2f} nm, {'poled' if o['period'] is not None else 'unpoled'}"
+        ctx.seen(("kin", o["crystal"], o["omega"], o["pol"], o["period"]))
+        ctx.count(f"kin:{o['crystal']}:{'poled' if o['period'] is not None else 'unpoled'}")
+        if not o.get("ok"):
+            ctx.violation("S5", f"beam kinematics panic for {where}: {o.get('panic')}",
+                          {"kind": "kin_panic", "crystal": o["crystal"]}, {"stage": STAGE, "regenerate": regen_, "observation": o})
+            continue
+        vals = {q: f64_of_hex(o[q]) for q in ("n_eff", "vp", "vg", "ng", "transit", "n0")}
+        if not all(v == v and abs(v) != float("inf") for v in vals.values()):
+            ctx.violation("S5", f"non-finite beam kinematics for {where}: {vals}",
+                          {"kind": "kin_nonfinite", "crystal": o["crystal"]}, {"stage": STAGE, "regenerate": regen_, "observation": o})
+            continue
+        if abs(vals["vg"] * vals["ng"] - C_LIGHT) > 1e-12 * C_LIGHT or o["n_self"] != o["n0"]:
+            ctx.violation("S5", f"group_velocity * group_index differs from c (or refractive_index is not index_along at the own wavelength) for {where}",
+                          {"kind": "kin_vg_ng", "crystal": o["crystal"]}, {"stage": STAGE, "regenerate": regen_, "observation": o})
+        exp = expected(o)
+        for q, name in (("n_eff", "effective_index_of_refraction"), ("vp", "phase_velocity"), ("vg", "group_velocity"), ("ng", "group_index"),
+                        ("transit", "average_transit_time")):
+            if abs(vals[q] - exp[q]) > 1e-9 * abs(exp[q]):
+                ctx.violation("S5", f"Beam::{name} = {vals[q]!r} for {where}, but v_p = c/n_eff, v_g = v_p (1 + (lambda/n_eff) dn/dlambda), n_g = c/v_g, "
+                                    f"T = (L/2)/|cos theta|/v_g on the code's own index samples give {exp[q]!r}",
+                              {"kind": "kin_value", "quantity": q}, {"stage": STAGE, "regenerate": regen_, "observation": o, "expected": exp})
+                break
+        good.append(o)
+    return good
+
+
 def run_stage(ctx, binp=None, n=None):
-    """returns the number of disagreeing goals; violations are registered on ctx"""
+    """returns the number of disagreeing goals; violations and broken obligations are registered on ctx"""
     binp = binp or build_harness(ctx)
     n = n or (40 if ctx.tier == "quick" else 300)
     for m in getattr(ctx, "gen_msgs_all", []):      # set by regen(): a refused source construct is a broken obligation here
@@ -44,42 +95,46 @@ def run_stage(ctx, binp=None, n=None):
             ctx.proof_failures.append(("Gen/Kinematics.v", "translator", m))
     ok, fails, _ = coq_build(ctx, ["Proofs/Compose_kinematics_links.vo", "Proofs/Compose_kinematics_cases.vo"], timeout=1200)
     if not ok:
-        ctx.proof_failures.extend(fails)
-        ctx.note("kinematics correspondence skipped: Gen/Kinematics.v or its lemmas did not build")
+        ctx.proof_failures.extend(f for f in fails if f not in ctx.proof_failures)
+        ctx.note("kinematics: Gen/Kinematics.v or its lemmas did not build; the generated definitions are not compared, the implementation's "
+                 "values are still checked against the property's formulas")
+    args = ["kin", ctx.seed, n]
+    obs = run_harness(ctx, binp, args)
+    for o in obs:
+        o["_args"] = [str(a) for a in args]
+    good = oracle(ctx, obs)
+    if not ok:
         return 0
-    obs = [o for o in run_harness(ctx, binp, ["kin", ctx.seed, n]) if o.get("kind") == "kin"]
     goals, meta = [], {}
-    for k, o in enumerate(obs):
-        ctx.seen(("kin", o["crystal"], o["omega"], o["pol"], o["period"]))
-        ctx.count(f"kin:{o['crystal']}:{'poled' if o['period'] is not None else 'unpoled'}")
-        if not o.get("ok"):
-            ctx.violation("S5", f"beam kinematics panic for {o['crystal']} at {f64_of_hex(o['lambda']) * 1e9:.1f} nm: {o.get('panic')}",
-                          {"kind": "kin_panic", "crystal": o["crystal"]}, o)
-            continue
-        vals = {q: f64_of_hex(o[q]) for q in ("n_eff", "vp", "vg", "ng", "transit", "n0")}
-        if not all(v == v and abs(v) != float("inf") for v in vals.values()):
-            ctx.violation("S5", f"non-finite beam kinematics for {o['crystal']} at {f64_of_hex(o['lambda']) * 1e9:.1f} nm: {vals}",
-                          {"kind": "kin_nonfinite", "crystal": o["crystal"]}, o)
-            continue
-        # direct clauses on the implementation: v_g n_g = c, n_self is the index at the own wavelength
-        c = 299792458.0
-        if abs(vals["vg"] * vals["ng"] - c) > 1e-12 * c or o["n_self"] != o["n0"]:
-            ctx.violation("S5", f"group_velocity * group_index differs from c (or refractive_index is not index_along at the own wavelength) "
-                                f"for {o['crystal']}", {"kind": "kin_vg_ng", "crystal": o["crystal"]}, o)
-        for g in goals_of(o, k):
+    for o in good:
+        for g in goals_of(o, o["case"]):
             goals.append(g)
             meta[g[0]] = o
     res = run_interval_cases(ctx, "KIN", IMPORTS, goals)
     nbad = 0
-    for cid, good in res.items():
-        if good or cid not in meta:
+    for cid, good_ in res.items():
+        if good_ or cid not in meta:
             continue
         nbad += 1
         o = meta[cid]
         ctx.violation("S4", f"generated beam kinematics and implementation disagree ({cid.split('_', 1)[1]}) for {o['crystal']}, "
                             f"{f64_of_hex(o['lambda']) * 1e9:.2f} nm, {'poled' if o['period'] is not None else 'unpoled'}",
-                      {"kind": "kin_model_mismatch", "quantity": cid.split("_", 1)[1]}, {"case": cid, "observation": o}, found_input=False)
+                      {"kind": "kin_model_mismatch", "quantity": cid.split("_", 1)[1]}, {"stage": STAGE, "case": cid, "observation": o}, found_input=False)
     return nbad
+
+
+def try_replay(ctx, binp):
+    """./check <ID> --replay <file> for a record written by this stage; None when the record is not one of this stage's"""
+    from vlib import pmcases
+    try:
+        path = ctx.replay if os.path.isabs(ctx.replay) else os.path.join(VERIF, ctx.replay)
+        rec = json.load(open(path if os.path.exists(path) else ctx.replay))
+    except (OSError, ValueError, TypeError):
+        return None
+    det = rec.get("detail") if isinstance(rec, dict) else None
+    if not (isinstance(det, dict) and det.get("stage") == STAGE):
+        return None
+    return pmcases.replay(ctx, binp, oracle)
 
 
 def run(ctx):
